@@ -1,4 +1,5 @@
 import Proofs.KNCorpus
+import Proofs.KNProb
 import Proofs.KNAdjust
 /-!
 The refinement theorems of `Proofs/KNAdjust.lean` for every corpus (`fullWF_countFull` and the
@@ -193,5 +194,102 @@ theorem ngram_set (N : Nat) (corpus : List (List Word)) (h2 : 2 ≤ N)
       exact List.mem_flatMap.mpr ⟨s, hs, hr⟩
     obtain ⟨e, he, rfl⟩ := List.mem_map.mp ((mem_countFull_keys N corpus r).mpr hocc)
     exact ⟨e, he, hv, hrg⟩
+
+/-- at the highest order the records are the rows whose natural position 1 is not `<s>`; for the
+table of a corpus these are exactly the keys of order `N` -/
+theorem top_keys (cfg : Cfg) (corpus : List (List Word)) (h2 : 2 ≤ cfg.order)
+    (hw : ∀ s ∈ corpus, ∀ w ∈ s, 3 ≤ w) (g : Gram) :
+    g ∈ ksOf cfg (countFull cfg.order corpus) cfg.order ↔
+      g ∈ Spec.keys cfg.order (countFull cfg.order corpus) := by
+  have hF := fullWF_countFull cfg.order corpus h2 hw
+  unfold ksOf
+  have h1 : (cfg.order == 1) = false := by simp; omega
+  simp only [h1, beq_self_eq_true, if_true, Bool.false_eq_true, if_false]
+  rw [mem_keys, List.mem_filter, List.mem_map]
+  constructor
+  · rintro ⟨⟨e, he, rfl⟩, hc⟩
+    have hlen := hF.len e he
+    refine ⟨e, he, ?_, List.take_of_length_le (by omega)⟩
+    apply topValid_of_bosRun hlen h2 (hF.bosRun e he)
+    rw [hlen] at hc
+    simpa using hc
+  · rintro ⟨e, he, hv, rfl⟩
+    have hlen := hF.len e he
+    rw [List.take_of_length_le (by omega)]
+    refine ⟨⟨e, he, rfl⟩, ?_⟩
+    rw [hlen]
+    simp only [Bool.not_eq_eq_eq_not, Bool.not_true, beq_eq_false_iff_ne, ne_eq]
+    intro hb
+    apply validAt_iff.mp hv
+    apply List.mem_of_getElem? (i := cfg.order - 2)
+    rw [List.getElem?_take, if_pos (by omega)]
+    rw [List.getD_eq_getElem?_getD] at hb
+    rw [List.getElem?_eq_getElem (by omega)] at hb ⊢
+    simpa using hb
+
+/-- **The n-gram set of the records** (`Spec.ents`, all orders `1 ≤ n ≤ N`): the windows of the
+`<s>`/`</s>`-delimited sentences other than the bare `<s>`, plus `<unk>` and `<s>` at order 1. -/
+theorem ngram_set_ents (cfg : Cfg) (corpus : List (List Word)) (h2 : 2 ≤ cfg.order)
+    (hw : ∀ s ∈ corpus, ∀ w ∈ s, 3 ≤ w) (n : Nat) (h1 : 1 ≤ n) (hn : n ≤ cfg.order) (g : Gram) :
+    g ∈ (Spec.ents cfg (countFull cfg.order corpus) n).map (·.gram) ↔
+      (n = 1 ∧ (g = [unk] ∨ g = [bos])) ∨
+      ((∃ s ∈ corpus, g ∈ windows n (padded1 s)) ∧ g ≠ [bos]) := by
+  rw [ents_grams, ← ngram_set cfg.order corpus h2 hw n h1 hn g]
+  by_cases hn1 : n = 1
+  · subst hn1
+    unfold ksOf
+    simp only [beq_self_eq_true, if_true, List.mem_cons, true_and]
+    constructor
+    · rintro (h | h | h)
+      · exact Or.inl (Or.inl h)
+      · exact Or.inl (Or.inr h)
+      · exact Or.inr h
+    · rintro ((h | h) | h)
+      · exact Or.inl h
+      · exact Or.inr (Or.inl h)
+      · exact Or.inr (Or.inr h)
+  · by_cases hnN : n = cfg.order
+    · subst hnN
+      rw [top_keys cfg corpus h2 hw]
+      simp [hn1]
+    · unfold ksOf
+      have h1' : (n == 1) = false := by simp [hn1]
+      have h2' : (n == cfg.order) = false := by simp [hnN]
+      simp [h1', h2', hn1]
+
+/-! ## 4. Probability bounds for the order-1 model -/
+
+theorem spec_len1 {cfg : Cfg} {full : Table} (hw : TableWF1 cfg full) (discs : List (Disc × Bool)) :
+    ∀ n, 1 ≤ n → ∀ r ∈ (specCtx cfg full discs).esAt n, r.gram.length = n := by
+  intro n hn r hr
+  by_cases h1 : n = 1
+  · subst h1; exact (tableOK1 hw discs).len1 r hr
+  · rw [esAt1_spec hw, if_neg (by omega)] at hr; cases hr
+
+theorem prob_le_one_table1 (cfg : Cfg) (fallback : Option Disc) (full : Spec.Table) (m : Model)
+    (hm : Spec.estimateFrom cfg fallback full = .ok m) (hw : TableWF1 cfg full)
+    (hfb : ∀ f, fallback = some f → DiscOK f) :
+    ∀ l ∈ m.orders, ∀ e ∈ l, 0 ≤ e.p ∧ e.p ≤ 1 ∧ 0 ≤ e.bo := by
+  obtain ⟨discs, hd, ho⟩ := estimateFrom_orders cfg fallback full m hm
+  rw [ho]
+  apply entry_bounds (tableOK1 hw discs) _ (spec_len1 hw discs)
+  intro d hmem
+  obtain ⟨d', hd', rfl⟩ := List.mem_map.mp (show d ∈ discs.map (·.1) from hmem)
+  exact discounts_ok hfb hd d' hd'
+
+theorem prob_le_one_corpus1 (cfg : Cfg) (pv : Bool) (fallback : Option Disc) (corpus : List (List Word))
+    (m : Model) (hm : Spec.estimate cfg pv fallback corpus = .ok m) (h1 : cfg.order = 1)
+    (hne : corpus ≠ []) (hw : ∀ s ∈ corpus, ∀ w ∈ s, 3 ≤ w)
+    (hfb : ∀ f, fallback = some f → DiscOK f) :
+    ∀ l ∈ m.orders, ∀ e ∈ l, 0 ≤ e.p ∧ e.p ≤ 1 ∧ 0 ≤ e.bo := by
+  unfold Spec.estimate at hm
+  rw [if_pos (by omega)] at hm
+  exact prob_le_one_table1 cfg fallback _ m hm (tableWF1_countFull cfg corpus h1 hne hw) hfb
+
+/-! ## 5. Non-vacuity -/
+
+example : [4, 3] ∈ Spec.keys 2 (countFull 3 [[3, 4], [3], [4, 3, 5]]) :=
+  (ngram_set 3 _ (by decide) (by decide) 2 (by decide) (by decide) _).mpr
+    ⟨⟨[3, 4], by decide, by decide⟩, by decide⟩
 
 end KV.KN.Norm
